@@ -1514,16 +1514,16 @@ def run(ctx: Ctx):
     stream_table(ctx, batch)
     stream_formatter_args(ctx, batch, ctx.n(400, 4000))
     # (i) parsed documents
-    n = ctx.n(2000, 18000)
+    n = ctx.n(1700, 18000)
     for i in range(n):
         r = ctx.rng("parsed", i)
         check_tree(ctx, batch, {"kind": "parse", "markup": gen_markup(r)}, "parsed", True, r=r)
-    n = ctx.n(700, 6000)
+    n = ctx.n(600, 6000)
     for i in range(n):
         r = ctx.rng("malformed", i)
         check_tree(ctx, batch, {"kind": "parse", "markup": gen_markup(r, malformed=True)}, "malformed", True, r=r)
     # (ii) API construction / edit histories, representable content
-    n = ctx.n(2500, 24000)
+    n = ctx.n(2100, 24000)
     for i in range(n):
         r = ctx.rng("api", i)
         check_tree(ctx, batch, gen_api_recipe(r, 0.0), "api", False, r=r)
